@@ -503,7 +503,9 @@ def sb_plan(quick):
                             segs = segs + [S(1)]
                     else:
                         # one long line: `.*\n` in add_lines is quadratic in the length of an LF-free piece
-                        # (13 ms per 4096-byte piece), so the grid is thinned in the quick tier
+                        # (13 ms per 4096-byte piece, 14 s for 128 KiB in one buffer), so the grid is thinned
+                        # and pre-loaded buffers of a long line stay <= 16 KiB
+                        PRE = S(4096, preload='dot') if L <= 16384 else S(4096, (0,), preload=16384)
                         if quick and cont and delta == 0:
                             segs = [S(4096), S(1000, (0,)), S(1000, (0, 1))]
                             if L <= 16384:
@@ -517,9 +519,9 @@ def sb_plan(quick):
                             segs = [S(4096), S(1000, (0,))]
                         elif cont and kind == 'run' and delta == 0:
                             segs = [S(1000), S(4095), S(4096), S(4097), S(4096, (0, 1, 2)), S(1000, (0,)), S(1000, (0, 1)),
-                                    S(4096, preload='dot'), S(4096, preload=4096), S(4096, preload=min(16384, L))]
+                                    PRE, S(4096, preload=4096), S(4096, preload=min(16384, L))]
                         elif cont and kind == 'run':
-                            segs = [S(4096), S(1000, (0,)), S(1000, (0, 1)), S(4096, preload='dot')]
+                            segs = [S(4096), S(1000, (0,)), S(1000, (0, 1)), PRE]
                         elif cont:
                             if delta:
                                 continue
